@@ -210,3 +210,34 @@ def _(self: Union[PRDBE(1), PRDBE(2)], key: Bytes(16), start_addr: U32, data: Un
     sample_with(lambda rnd: (lambda p: {"self": p, "key": bytes(rnd.getrandbits(8) for _ in range(16)),
                                         "start_addr": rnd.choice([p.fac_regions[0].start_addr + rnd.choice([0, 0x10, 0x200, 0x3F0, 0x400]), 0x1000, p.fac_regions[-1].start_addr + 0x10]),
                                         "data": bytes(rnd.getrandbits(8) for _ in range(rnd.choice([16, 512, 1024])))})(_mk_prdbe(rnd)))
+
+
+# ----------------------------------------------------------------------------------------------------------------------
+# OTFAD key blob encryption: every 16 bytes are AES-CTR encrypted with the counter block the hardware builds for THEIR OWN system address
+# (CTR words, their XOR, address with the low nibble cleared) - wherever inside the blob the data are placed, whether or not the caller names a counter
+# ----------------------------------------------------------------------------------------------------------------------
+inline("spsdk.utils.crypto.otfad:KeyBlob.contains_addr", "spsdk.utils.crypto.otfad:KeyBlob.matches_range")
+from spsdk.utils.misc import Endianness as _End  # noqa: E402
+
+
+def otfad_ctr_block(blob, address, block16):
+    civ = blob.ctr_init_vector
+    return AES_CTR(blob.key, civ + bytes([civ[i] ^ civ[4 + i] for i in range(4)]) + (address % 2 ** 32).to_bytes(4, "big"), block16)
+
+
+def _mk_kb_enc(rnd):
+    start = rnd.randrange(0, 1 << 18) * 1024
+    return KeyBlob(start, start + 0xFFFF, key=bytes(rnd.getrandbits(8) for _ in range(16)), counter_iv=bytes(rnd.getrandbits(8) for _ in range(8)))
+
+
+@contract("spsdk.utils.crypto.otfad:KeyBlob.encrypt_image", split=2)
+def _(self: Obj(KeyBlob, key=Bytes(16), ctr_init_vector=Bytes(8), start_addr=U32, end_addr=U32), base_address: Range(0, 0xFFFFFF00),
+      data: Union[Bytes(16), Bytes(32)], byte_swap: Const(False), counter_value: Const(None)) -> bytes:
+    requires(self.start_addr <= base_address and base_address + len(data) - 1 <= self.end_addr)     # the data lie inside the key blob's range
+    raises(SPSDKError, base_address % 16 != 0, label="unaligned-base")
+    ensures(len(result) == len(data), label="same-length")
+    ensures(all(result[16 * j: 16 * j + 16] == otfad_ctr_block(self, base_address + 16 * j, data[16 * j: 16 * j + 16]) for j in range(len(data) // 16)),
+            label="every-16-bytes-use-the-counter-of-their-own-system-address")
+    pure()
+    sample_with(lambda rnd: (lambda kb, off: {"self": kb, "base_address": kb.start_addr + off, "data": bytes(rnd.getrandbits(8) for _ in range(rnd.choice([16, 32, 48]))),
+                                              "byte_swap": False, "counter_value": None})(_mk_kb_enc(rnd), rnd.choice([0, 0x10, 0x400, 0x7F0])))
